@@ -27,9 +27,8 @@ theorem na_only_to_hunted_after_router (tr : List Event) (s : State) (os : List 
   · rename_i p hp
     split at hs
     · rename_i hrp
-      cases hs
       obtain ⟨a, _, c⟩ := hI.sendOK i p hp
-      exact ⟨rfl, a, c r hrp, hI.started i (by rw [hp]; simp)⟩
+      split at hs <;> (cases hs; exact ⟨rfl, a, c r hrp, hI.started i (by rw [hp]; simp)⟩)
     · cases hs
   · cases hs
 
@@ -37,23 +36,27 @@ theorem na_only_to_hunted_after_router (tr : List Event) (s : State) (os : List 
     MAC is in the hunt list, the handler is not closed and a router is known -/
 theorem send_entered_only_by_check (s s' : State) (e : Event) (o : Out) (i : Nat) (p : List Bytes)
     (hs : step s e = some (s', o)) (h0 : ∀ q, (s.loops i).pc ≠ .send q) (h1 : (s'.loops i).pc = .send p) :
-    e = .check i ∧ (s.loops i).mac ∈ s.hunt ∧ s.closed = false ∧ s.defaultRouter.isSome = true := by
+    e = .check i ∧ (s.loops i).mac ∈ s.hunt ∧ s.closed = false ∧ s.defaultRouter.isSome = true ∧
+      s.holder = none ∧ s'.holder = some i := by
   cases e with
   | envRepeat v => simp only [step] at hs; cases hs; exact absurd h1 (h0 p)
-  | close => simp only [step] at hs; cases hs; exact absurd h1 (h0 p)
-  | ra r =>
+  | close =>
     simp only [step] at hs
     split at hs
-    · rename_i s1 ok hp
-      cases hs
-      rcases processRA_cases s r _ ok hp with rfl | rfl | ⟨hdr, o', rfl⟩
-      · exact absurd h1 (h0 p)
-      · exact absurd h1 (h0 p)
-      · rw [(learn_fields _ r hdr o').2.2.1] at h1; exact absurd h1 (h0 p)
+    · cases hs; exact absurd h1 (h0 p)
     · cases hs
+  | ra r =>
+    rcases step_ra_cases s r s' o hs with rfl | rfl | ⟨hdr, o', rfl⟩
+    · exact absurd h1 (h0 p)
+    · exact absurd h1 (h0 p)
+    · rw [(learn_fields _ r hdr o').2.2.1] at h1; exact absurd h1 (h0 p)
   | stopHunt mac eff =>
     simp only [step] at hs
-    split at hs <;> (cases hs; exact absurd h1 (h0 p))
+    split at hs
+    · split at hs
+      · cases hs; exact absurd h1 (h0 p)
+      · cases hs
+    · cases hs; exact absurd h1 (h0 p)
   | startHunt mac cls =>
     simp only [step] at hs
     split at hs
@@ -61,11 +64,13 @@ theorem send_entered_only_by_check (s s' : State) (e : Event) (o : Out) (i : Nat
     · split at hs
       · cases hs; exact absurd h1 (h0 p)
       · split at hs
-        · cases hs; exact absurd h1 (h0 p)
         · cases hs
-          by_cases hi : i = s.nloops
-          · subst hi; simp at h1
-          · simp only [updLoop_other _ _ _ _ hi] at h1; exact absurd h1 (h0 p)
+        · split at hs
+          · cases hs; exact absurd h1 (h0 p)
+          · cases hs
+            by_cases hi : i = s.nloops
+            · subst hi; simp at h1
+            · simp only [updLoop_other _ _ _ _ hi] at h1; exact absurd h1 (h0 p)
   | wake j =>
     simp only [step] at hs
     split at hs
@@ -79,16 +84,17 @@ theorem send_entered_only_by_check (s s' : State) (e : Event) (o : Out) (i : Nat
     split at hs
     · rename_i q hq
       split at hs
-      · cases hs
-        by_cases hi : i = j
+      · by_cases hi : i = j
         · subst hi; exact absurd hq (h0 q)
-        · simp only [updLoop_other _ _ _ _ hi] at h1; exact absurd h1 (h0 p)
+        · split at hs <;>
+            (cases hs; simp only [updLoop_other _ _ _ _ hi] at h1; exact absurd h1 (h0 p))
       · cases hs
     · cases hs
   | check j =>
     simp only [step] at hs
     split at hs
-    · by_cases hi : i = j
+    · rename_i hcf
+      by_cases hi : i = j
       · subst hi
         split at hs
         · cases hs; simp at h1
@@ -101,7 +107,9 @@ theorem send_entered_only_by_check (s s' : State) (e : Event) (o : Out) (i : Nat
             | true => exact absurd (Or.inr hcl) hcond
           split at hs
           · rename_i hdef
-            exact ⟨rfl, hm, hc, hdef⟩
+            split at hs
+            · cases hs; simp at h1
+            · cases hs; exact ⟨rfl, hm, hc, hdef, hcf.2, rfl⟩
           · cases hs; simp at h1
       · have key : ∀ (l : Loop), (s'.loops i).pc = ((updLoop s.loops j l) i).pc → False := by
           intro l he
@@ -130,15 +138,16 @@ theorem startHunt_rejects_v4_ignores_non_lla (s : State) (mac : Bytes) :
 theorem idempotent_per_mac (s : State) (mac : Bytes) (c1 c2 : IpClass) (s1 : State) (o1 : Out)
     (h1 : step s (.startHunt mac c1) = some (s1, o1)) (ha : c1 = .none ∨ c1 = .lla) :
     ∃ o2, step s1 (.startHunt mac c2) = some (s1, o2) := by
-  have hm : mac ∈ s1.hunt := by
+  have hm : mac ∈ s1.hunt ∧ s1.holder = none := by
     simp only [step] at h1
-    rcases ha with rfl | rfl <;> simp at h1 <;> (split at h1 <;> (cases h1; simp_all))
+    rcases ha with rfl | rfl <;> simp at h1 <;>
+      (obtain ⟨hf, h1⟩ := h1; split at h1 <;> (cases h1; simp_all))
   simp only [step]
   split
   · exact ⟨_, rfl⟩
   · split
     · exact ⟨_, rfl⟩
-    · simp
+    · simp [hm.1, hm.2]
 
 /-- the hunt list never holds a MAC twice (AddrList set semantics), on every trace -/
 theorem hunt_nodup (tr : List Event) (s : State) (os : List Out) (hr : run {} tr = some (s, os)) :
@@ -149,64 +158,83 @@ theorem hunt_nodup (tr : List Event) (s : State) (os : List Out) (hr : run {} tr
 theorem stopHunt_removes (tr : List Event) (s s' : State) (os : List Out) (o : Out) (mac : Bytes)
     (hr : run {} tr = some (s, os)) (hs : step s (.stopHunt mac true) = some (s', o)) : mac ∉ s'.hunt := by
   have hn := (inv_run inv_init hr).nodup
-  simp only [step] at hs
-  cases hs
-  exact fun h => (List.Nodup.mem_erase_iff hn).1 h |>.1 rfl
+  by_cases hf : s.holder = none
+  · simp [step, free, hf] at hs
+    obtain ⟨rfl, _⟩ := hs
+    exact fun h => (List.Nodup.mem_erase_iff hn).1 h |>.1 rfl
+  · simp [step, free, hf] at hs
 
 /-! ### after StopHunt / Close -/
 
-/-- **After StopHunt (or Close) at most the sends already in flight.**  Let `s` be any reachable state
-    in which loop `i` is blocked – its MAC is not in the hunt list (StopHunt returned) or the handler is
-    closed.  On every continuation without an accepted StartHunt for that MAC, loop `i` writes at
-    most `budget` further advertisements: the routers of the iteration it is in if it already passed
-    its check, none otherwise; it never passes a check again. -/
-theorem after_stop_at_most_in_flight (tr1 tr2 : List Event) (s s2 : State) (os1 os2 : List Out)
-    (_h1 : run {} tr1 = some (s, os1)) (i : Nat) (hi : i < s.nloops) (hb : Blocked s i)
-    (hn : NoRestart (s.loops i).mac tr2) (h2 : run s tr2 = some (s2, os2)) :
-    sendsOf i tr2 ≤ budget (s.loops i) ∧
-    ((∀ p, (s.loops i).pc ≠ .send p) → sendsOf i tr2 = 0) := by
-  have hle := blocked_run tr2 s s2 os2 i hi hb hn h2
-  refine ⟨hle, ?_⟩
-  intro hp
-  have : budget (s.loops i) = 0 := by
-    unfold budget
-    split
-    · rename_i p h; exact absurd h (hp p)
-    · rfl
-  omega
+/-- **StopHunt and Close wait for the batch in flight**: in every reachable state in which some loop
+    is between its check and the last advertisement of its iteration, an effective StopHunt, a Close,
+    an accepted StartHunt, another loop's check and a router advertisement are not enabled – they
+    take the handler mutex the sending loop holds. -/
+theorem stop_and_close_wait_for_batch (tr : List Event) (s : State) (os : List Out)
+    (hr : run {} tr = some (s, os)) (i : Nat) (p : List Bytes) (hp : (s.loops i).pc = .send p) :
+    (∀ mac, step s (.stopHunt mac true) = none) ∧ step s .close = none ∧
+    (∀ mac cls, cls = .none ∨ cls = .lla → step s (.startHunt mac cls) = none) ∧
+    (∀ j, step s (.check j) = none) ∧
+    (∀ r, 16 ≤ r.payload.length → step s (.ra r) = none) := by
+  have hh : s.holder = some i := ((inv_run inv_init hr).holderIff i).2 ⟨p, hp⟩
+  refine ⟨?_, ?_, ?_, ?_, ?_⟩
+  · intro mac; simp [step, free, hh]
+  · simp [step, free, hh]
+  · intro mac cls hc; rcases hc with rfl | rfl <;> simp [step, free, hh]
+  · intro j; simp [step, free, hh]
+  · intro r h16; simp [step, free, hh, h16]
 
-/-- the strict reading of the property – no forged advertisement at all once StopHunt has returned –
-    as a statement about traces -/
+/-- the property's clause – no forged advertisement at all once StopHunt has returned – as a
+    statement about traces: after an effective StopHunt of `mac`, as long as no StartHunt for `mac` is
+    accepted, no output of the machine is a neighbour advertisement to `mac` -/
 def no_na_after_stop_full : Prop :=
   ∀ (pre post : List Event) (mac : Bytes) (s : State) (os : List Out),
     run {} (pre ++ [.stopHunt mac true] ++ post) = some (s, os) → NoRestart mac post →
     naCount mac (os.drop (pre.length + 1)) = 0
+
+/-- the same for Close: nothing is sent to anybody afterwards, whatever is called -/
+def no_na_after_close_full : Prop :=
+  ∀ (pre post : List Event) (mac : Bytes) (s : State) (os : List Out),
+    run {} (pre ++ [.close] ++ post) = some (s, os) → naCount mac (os.drop (pre.length + 1)) = 0
+
+/-- **After StopHunt no further forged advertisement reaches that host** – on every trace of the
+    machine.  StopHunt takes the handler mutex, which a loop holds from its check to the last
+    advertisement of the iteration: when StopHunt's critical section runs no batch is in flight, the
+    MAC leaves the hunt list, and every later check of a loop attacking it ends that loop. -/
+theorem no_na_after_stop : no_na_after_stop_full := by
+  intro pre post mac s os hr hn
+  obtain ⟨s0, s1, o, os1, os2, r1, hs, r2, hd⟩ := run_split pre post _ s os hr
+  rw [hd]
+  have hI := inv_run inv_init r1
+  have hq : Quiet mac s1 := by
+    by_cases hf : s0.holder = none
+    · simp [step, free, hf] at hs
+      obtain ⟨rfl, _⟩ := hs
+      refine ⟨Or.inl ?_, fun i _ p => free_no_send hI hf i p⟩
+      exact fun h => (List.Nodup.mem_erase_iff hI.nodup).1 h |>.1 rfl
+    · simp [step, free, hf] at hs
+  exact quiet_run post mac s1 s os2 hq (Or.inr hn) r2
+
+/-- **After Close no forged advertisement is written at all** (to any MAC, whatever is called
+    afterwards: a later StartHunt adds the MAC and starts a loop, which ends at its first check). -/
+theorem no_na_after_close : no_na_after_close_full := by
+  intro pre post mac s os hr
+  obtain ⟨s0, s1, o, os1, os2, r1, hs, r2, hd⟩ := run_split pre post _ s os hr
+  rw [hd]
+  have hI := inv_run inv_init r1
+  simp only [step] at hs
+  split at hs
+  · rename_i hf
+    cases hs
+    exact quiet_run post mac { s0 with closed := true } s os2
+      ⟨Or.inr rfl, fun i _ p => free_no_send hI hf i p⟩ (Or.inl rfl) r2
+  · cases hs
 
 def witnessMac : Bytes := [2, 0xaa, 0, 0, 0, 7]
 def witnessRouter : Bytes := [0xfe, 0x80, 0, 0, 0, 0, 0, 0, 0, 0, 0, 0, 0, 0, 0, 0x11]
 def witnessRA : RaIn :=
   { etherSrc := [2, 0, 0, 0, 0, 0x11], ipSrc := witnessRouter, hostKnown := true,
     payload := [134, 0, 0, 0, 64, 0, 0, 30, 0, 0, 0, 0, 0, 0, 0, 0] }
-
-/-- **finding (check-then-send window)**: the loop copies the router list under the lock and sends
-    after releasing it; a StopHunt that returns in between is followed by a forged advertisement. -/
-theorem finding_na_after_stop_window : ¬ no_na_after_stop_full := by
-  intro h
-  have hout : (run {} ([.startHunt witnessMac .lla, .ra witnessRA, .check 0] ++ [.stopHunt witnessMac true] ++
-      [.send 0 witnessRouter])).map (·.2) =
-      some [.start .hunt, .raResult true, .none, .none, .na witnessMac witnessRouter] := by decide
-  cases hr : run {} ([.startHunt witnessMac .lla, .ra witnessRA, .check 0] ++ [.stopHunt witnessMac true] ++
-      [.send 0 witnessRouter]) with
-  | none => rw [hr] at hout; simp at hout
-  | some p =>
-    obtain ⟨s, os⟩ := p
-    rw [hr] at hout
-    simp only [Option.map_some, Option.some.injEq] at hout
-    subst hout
-    have := h [.startHunt witnessMac .lla, .ra witnessRA, .check 0] [.send 0 witnessRouter] witnessMac s _ hr
-      (by intro e he cls hc; simp at he; subst he; cases hc)
-    revert this
-    decide
 
 /-! ### learning routers from advertisements -/
 
@@ -335,6 +363,30 @@ example : (run {} [.startHunt witnessMac .lla, .ra witnessRA, .check 0, .send 0 
 
 /-- without a learned router the loop only waits: no send is enabled -/
 example : run {} [.startHunt witnessMac .lla, .check 0, .send 0 witnessRouter] = none := by decide
+
+/-- `no_na_after_stop` is not vacuous: a trace of the machine on which the host was attacked, then
+    StopHunt was called; the hypotheses hold (the whole list is a run, nothing restarts the hunt) and
+    the advertisements before the stop are there -/
+example : (run {} ([.startHunt witnessMac .lla, .ra witnessRA, .check 0, .send 0 witnessRouter, .wake 0,
+      .check 0, .send 0 witnessRouter] ++ [.stopHunt witnessMac true] ++ [.wake 0, .check 0, .ra witnessRA])).map (·.2) =
+    some [.start .hunt, .raResult true, .none, .na witnessMac witnessRouter, .none, .none,
+      .na witnessMac witnessRouter, .none, .none, .none, .raResult true] ∧
+    NoRestart witnessMac [.wake 0, .check 0, .ra witnessRA] := by
+  refine ⟨by decide, ?_⟩
+  intro e he cls hc
+  simp at he
+  rcases he with rfl | rfl | rfl <;> cases hc
+
+/-- the former check-then-send window is not a behaviour of the repaired code: between the check of
+    an iteration and its last advertisement StopHunt (and Close) cannot run -/
+example : run {} [.startHunt witnessMac .lla, .ra witnessRA, .check 0, .stopHunt witnessMac true,
+    .send 0 witnessRouter] = none := by decide
+example : run {} [.startHunt witnessMac .lla, .ra witnessRA, .check 0, .close, .send 0 witnessRouter] = none := by
+  decide
+
+/-- … StopHunt runs after the batch, and then nothing more can be sent -/
+example : run {} [.startHunt witnessMac .lla, .ra witnessRA, .check 0, .send 0 witnessRouter,
+    .stopHunt witnessMac true, .wake 0, .check 0, .send 0 witnessRouter] = none := by decide
 
 /-- after StopHunt the next check ends the loop -/
 example : (run {} [.startHunt witnessMac .lla, .ra witnessRA, .stopHunt witnessMac true, .check 0,
